@@ -82,6 +82,7 @@ pub const HAYSTACKS: &[&str] = &[
     "/a/]", "/a/()", "/a/q)/x", "/a/(/x", "/a/b(/y", "/a/]/x", "/a/b/y",
     "/a-b/x", "/a.c/x", "/éé/b", "/éé/1", "/éa/b", "/a/b.x", "/a/bXx",
     "abc/x", "Abc/x", "bc/x", "ABC/X",
+    "/w/q/c0", "/w/q/c1", "/w/q/c4", "/w/q/c8", "/w/q/c9", "/w/q/c10", "/W/Q/C9",
     "/a/c/q/d", "/a/c/q/e", "/a/c/q/e/f", "/x/q", "/y/q", "/x/y/7", "/x/y",
     "/ς/b", "/Σ/b", "/σ/b", "/σκ/1", "/ΣΚ/1", "/ςκ/1", "/ſt/b", "/st/b", "/ST/b", "/µ/b", "/μ/b", "/Μ/b", "/K/b", "/k/b", "/\u{212a}/b",
 ];
@@ -109,6 +110,9 @@ pub struct Config {
     /// only first inserts (every insertion ORDER of every subset), to a greater depth
     #[serde(default)]
     pub insert_only: bool,
+    /// the first `prefill` patterns are already stored in the initial state (a node with many children costs no depth)
+    #[serde(default)]
+    pub prefill: usize,
 }
 
 enum Tree {
@@ -464,7 +468,12 @@ impl<'a> Explorable for Model<'a> {
         } else {
             Tree::Multi(RegexTreeMap::new(self.cfg.ignore_case))
         };
-        vec![State { tree, live: BTreeMap::new(), versions: BTreeMap::new(), history: Vec::new() }]
+        let mut s = State { tree, live: BTreeMap::new(), versions: BTreeMap::new(), history: Vec::new() };
+        for p in 0..self.cfg.prefill.min(self.cfg.patterns.len()) {
+            s = self.apply(&s, &Op::Insert(p, 0));
+        }
+        // (the prefill inserts stay in the history: a replay starts from the empty tree)
+        vec![s]
     }
 
     fn key(&self, s: &State) -> String {
@@ -555,29 +564,36 @@ fn configs(tier: Tier) -> Vec<(Config, usize)> {
     let mut out = Vec::new();
     for ignore_case in [false, true] {
         out.push((
-            Config { set: "edge".into(), patterns: edge.clone(), unique: false, ignore_case, second_ids: false, cache_ops: false, insert_only: false },
+            Config { set: "edge".into(), patterns: edge.clone(), unique: false, ignore_case, second_ids: false, cache_ops: false, insert_only: false, prefill: 0 },
             tier.pick(4, 5),
         ));
         out.push((
-            Config { set: "main".into(), patterns: main.clone(), unique: false, ignore_case, second_ids: true, cache_ops: true, insert_only: false },
+            Config { set: "main".into(), patterns: main.clone(), unique: false, ignore_case, second_ids: true, cache_ops: true, insert_only: false, prefill: 0 },
             tier.pick(4, 5),
         ));
         out.push((
-            Config { set: "main-unique".into(), patterns: main.clone(), unique: true, ignore_case, second_ids: false, cache_ops: true, insert_only: false },
+            Config { set: "main-unique".into(), patterns: main.clone(), unique: true, ignore_case, second_ids: false, cache_ops: true, insert_only: false, prefill: 0 },
             tier.pick(4, 6),
         ));
         out.push((
-            Config { set: "paren-inside-class".into(), patterns: class.clone(), unique: false, ignore_case, second_ids: false, cache_ops: false, insert_only: false },
+            Config { set: "paren-inside-class".into(), patterns: class.clone(), unique: false, ignore_case, second_ids: false, cache_ops: false, insert_only: false, prefill: 0 },
             tier.pick(4, 5),
         ));
     }
     for ignore_case in [false, true] {
         out.push((
-            Config { set: "nested".into(), patterns: NESTED_PATTERNS.iter().map(|s| s.to_string()).collect(), unique: ignore_case, ignore_case: false, second_ids: false, cache_ops: false, insert_only: true },
+            Config { set: "nested".into(), patterns: NESTED_PATTERNS.iter().map(|s| s.to_string()).collect(), unique: ignore_case, ignore_case: false, second_ids: false, cache_ops: false, insert_only: true, prefill: 0 },
             tier.pick(6, 7),
         ));
         out.push((
-            Config { set: "case-folding".into(), patterns: FOLD_PATTERNS.iter().map(|s| s.to_string()).collect(), unique: false, ignore_case, second_ids: false, cache_ops: true, insert_only: false },
+            Config { set: "case-folding".into(), patterns: FOLD_PATTERNS.iter().map(|s| s.to_string()).collect(), unique: false, ignore_case, second_ids: false, cache_ops: true, insert_only: false, prefill: 0 },
+            tier.pick(3, 4),
+        ));
+    }
+    // a node with 11 children from the start (count thresholds on siblings), then every history of removals / retains / warm-ups / re-inserts
+    for ignore_case in [false, true] {
+        out.push((
+            Config { set: "wide".into(), patterns: (0..11).map(|i| format!(r"/w/(?:[a-z]+)/c{i}")).collect(), unique: false, ignore_case, second_ids: false, cache_ops: true, insert_only: false, prefill: 11 },
             tier.pick(3, 4),
         ));
     }
@@ -585,7 +601,7 @@ fn configs(tier: Tier) -> Vec<(Config, usize)> {
         // deeper, insert/remove only (no cache flags in the state): all insertion orders of every <=6-subset
         let small: Vec<String> = MAIN_PATTERNS[..8].iter().map(|s| s.to_string()).collect();
         out.push((
-            Config { set: "main-deep".into(), patterns: small, unique: false, ignore_case: false, second_ids: false, cache_ops: false, insert_only: false },
+            Config { set: "main-deep".into(), patterns: small, unique: false, ignore_case: false, second_ids: false, cache_ops: false, insert_only: false, prefill: 0 },
             7,
         ));
     }
@@ -717,6 +733,9 @@ pub fn replay(prop: &'static str, case: &Value) -> Vec<String> {
         Ok(h) => h,
         Err(_) => return vec![],
     };
+    let mut cfg = cfg;
+    // the recorded history starts from the empty tree (prefill inserts are part of it)
+    cfg.prefill = 0;
     let model = Model::new(&ctx, cfg, prop, prop == "C12");
     let mut s = model.init().pop().unwrap();
     model.check(&s);
